@@ -31,3 +31,11 @@ package main
 //@   site (*github.com/gorilla/mux.Route).HandlerFunc requires[C05] guarded: !gwHandler(arg1) ==> (#routeAuthz == "" && fnIs(#routeMatcher, "web.NoAuthz") && fnIs(arg1, "web.(*AuthMux).SetAuthenticate$bound")) || (#routeAuthz == "Basic" && #enabledBasic && fnIs(arg1, "web.(*BasicAuthHandler).BasicAuth$1") && gwHandler(captured(arg1, "web.(*BasicAuthHandler).BasicAuth$1", http.HandlerFunc))) || ((#routeAuthz == "NTLM" || #routeAuthz == "Negotiate") && #enabledNtlm && fnIs(arg1, "web.(*NTLMAuthHandler).NTLMAuth$1") && gwHandler(captured(arg1, "web.(*NTLMAuthHandler).NTLMAuth$1", http.HandlerFunc)))
 //@   site github.com/bolkedebruin/gokrb5/v8/spnego.SPNEGOKRB5Authenticate requires[C05] transposed: typeIs(arg0, http.HandlerFunc) && fnIs(dyn(arg0, http.HandlerFunc), "web.TransposeSPNEGOContext$1")
 //@   site (*github.com/gorilla/mux.Route).Handler requires[C05] kerberos: #routeAuthz == "Negotiate" && #enabledKerberos && arg1 == #spnegoWrapped
+
+// the ID token verifier checks everything the library can check (C13): signature, issuer,
+// audience (the configured client id) and expiry; the verifier it builds is the one the
+// callback handler uses, and it belongs to the configured provider
+//@ func initOIDC
+//@   assigns *
+//@   site (*github.com/coreos/go-oidc/v3/oidc.Provider).Verifier requires[C13] audience: arg1 != nil && arg1.ClientID == conf.OpenId.ClientId && !arg1.SkipClientIDCheck && !arg1.SkipExpiryCheck && !arg1.SkipIssuerCheck && !arg1.InsecureSkipSignatureCheck
+//@   site (*OIDCConfig).New requires[C13] wired: arg0.OIDCTokenVerifier == #lastVerifier && #lastVerifier != nil && arg0.OAuth2Config != nil && arg0.OAuth2Config.ClientID == conf.OpenId.ClientId
